@@ -288,7 +288,7 @@ func decodeValue(dec valueDecoder, param string, sm *openapi3.SerializationMetho
 				return value, found, nil
 			}
 		}
-		if required {
+		if required && found {
 			return nil, found, fmt.Errorf("decoding anyOf for parameter %q failed", param)
 		}
 		return nil, found, nil
@@ -308,7 +308,7 @@ func decodeValue(dec valueDecoder, param string, sm *openapi3.SerializationMetho
 		if isMatched >= 1 {
 			return value, found, nil
 		}
-		if required {
+		if required && found {
 			return nil, found, fmt.Errorf("decoding oneOf failed: %q is required", param)
 		}
 		return nil, found, nil
